@@ -212,6 +212,9 @@ type Cell struct {
 	Rev     int         // index into the scenario's revision list (-1: label names no revision, -2: no label)
 	Owner   string      // "" = this set; "none" = orphan; "otheruid"; "otherkind"; "noncontroller"
 	NoMatch bool        // labels do not match the selector
+	// NoVols: the pod lacks the volumes of the set's claim templates (a template was added to the running set, or the
+	// pod is an orphan that never had them)
+	NoVols bool
 	// Nested: the pod is named <set>-<ord>-0, i.e. it is ordinal 0 of ANOTHER set called <set>-<ord> (sets whose names
 	// are prefixes of each other); it matches the selector and has no owner. It is not a pod of this set.
 	Nested  bool
@@ -245,6 +248,9 @@ func (c Cell) String() string {
 	}
 	if c.Nested {
 		s += "/named-like-a-pod-of-the-set-" + "<set>-<ord>"
+	}
+	if c.NoVols {
+		s += "/without-the-claim-volumes"
 	}
 	if c.NoIdent {
 		s += "/noident"
@@ -329,7 +335,20 @@ func BuildPod(set *asv1.StatefulSet, ord int, c Cell, revName string, tmpl int, 
 	for _, ct := range set.Spec.VolumeClaimTemplates {
 		vols = append(vols, v1.Volume{Name: ct.Name, VolumeSource: v1.VolumeSource{PersistentVolumeClaim: &v1.PersistentVolumeClaimVolumeSource{ClaimName: fmt.Sprintf("%s-%s-%d", ct.Name, set.Name, ord)}}})
 	}
-	p.Spec.Volumes = append(vols, p.Spec.Volumes...)
+	if c.NoVols {
+		vols = nil
+	}
+	// as the controller builds it: a template volume named like a claim template gives way to the claim
+	claimNames := map[string]bool{}
+	for _, v := range vols {
+		claimNames[v.Name] = true
+	}
+	for _, v := range p.Spec.Volumes {
+		if !claimNames[v.Name] {
+			vols = append(vols, v)
+		}
+	}
+	p.Spec.Volumes = vols
 	p.Status.Phase = c.Phase
 	if c.Phase == v1.PodRunning {
 		st := v1.ConditionFalse
